@@ -43,6 +43,7 @@ void register_text_ops();
 void register_corpus_ops();
 void register_cli_ops();
 Step cli_step(Rng& r, int client, long rep, long cmd, const std::string& lit_a, const std::string& lit_b);
+const std::string& cli_dir();            // run-private scratch directory of the command-line steps (RAM-backed when possible)
 
 // text store shared by all modules (simfs)
 struct Blob { std::string bytes; std::string kind; std::string model_lit; int owner = 0; bool has_starts = false; std::set<std::string> api_starts; /* word automata: names of GetStartStates() at dump time */ };
